@@ -73,8 +73,11 @@ FAMILIES = (
     ("second", "minute", "hour", "day"),
     # the inverse of a time: products with the time family cancel to a bare prefix (kHz x s)
     ("hertz", "fresnel"),
+    # information: the byte is 2**3 bits, so an SI prefix on it (and an IEC prefix next to an SI
+    # one) leaves a prefix whose exponent is a float after the change of base
+    ("bit", "byte"),
 )
-PREFIXES = ("", "kilo", "milli", "centi", "micro", "mega")
+PREFIXES = ("", "kilo", "milli", "centi", "micro", "mega", "kibi", "mebi")
 FAMILY_OF = {u: i for i, fam in enumerate(FAMILIES) for u in fam}
 
 REL = Fraction(1, 10**12)
@@ -109,7 +112,7 @@ def _unit(prefix, name):
     if u is None:
         base = M.Unit._by_name[name]
         u = base if prefix == "" else M.Prefix._by_name[prefix] * base
-        size = S.unit_size(u)
+        size = S.unit_size(u, approx_mixed=True)
         if size is None or size <= 0:
             raise RuntimeError(f"size oracle has no size for {prefix}{name}")
         _UNITS[key] = u = (u, size)
@@ -446,7 +449,7 @@ def _si(q):
         return None
     if isinstance(mag, Decimal) and not mag.is_finite():
         return None
-    size = S.unit_size(q.unit)
+    size = S.unit_size(q.unit, approx_mixed=True)
     if size is None:
         raise RuntimeError(f"no size for result unit {q.unit}")
     return Fraction(mag) * size
@@ -492,7 +495,9 @@ def _one_run(out, fails, op, n, A, B, tag):
         if zero and isinstance(e, (ZeroDivisionError, decimal.InvalidOperation)):
             fails(f"C14:{op}:zero-measurand:ZeroDivisionError", f"{text} raised {type(e).__name__}: {e} at {core.innermost_frame(e)}; expected measurand {_f(ev)}, sigma {_f(es)} (SI)")
         else:
-            fails(f"C14:{op}:raises:{type(e).__name__}@{core.innermost_frame(e)}", f"{text} raised {type(e).__name__}: {e}")
+            units = [A.unit] + ([] if B is None else [B.unit])
+            mixed = ":mixed-base" if any(isinstance(u.prefix.exponent, float) for u in units) else ""
+            fails(f"C14:{op}:raises:{type(e).__name__}@{core.innermost_frame(e)}{mixed}", f"{text} raised {type(e).__name__}: {e}")
         return run
     if not isinstance(r, M.Measurement):
         fails(f"C14:{op}:result-type", f"{text} returned {type(r).__name__}, not a Measurement")
@@ -535,7 +540,12 @@ def _one_run(out, fails, op, n, A, B, tag):
             r0 = _apply(op, n, A.build(True), None if B is None else B.build(True))
             m0, s0 = _si(r0.measurand), _si(r0.uncertainty)
         except Exception as e:  # noqa: BLE001
-            fails(f"C14:{op}:plain-vs-zero-sigma", f"{text} returned a value but with Measurement(q, 0) in place of q it raised {type(e).__name__}: {e}")
+            units = [A.unit] + ([] if B is None else [B.unit])
+            if any(isinstance(u.prefix.exponent, float) for u in units):
+                # the measurement spelling of the same operands raises: the same verdict as when both were written as measurements
+                fails(f"C14:{op}:raises:{type(e).__name__}@{core.innermost_frame(e)}:mixed-base", f"{text} returned a value but with Measurement(q, 0) in place of q it raised {type(e).__name__}: {e}")
+            else:
+                fails(f"C14:{op}:plain-vs-zero-sigma", f"{text} returned a value but with Measurement(q, 0) in place of q it raised {type(e).__name__}: {e}")
             run.ok = False
         else:
             if m0 is None or s0 is None:
